@@ -101,7 +101,33 @@ fn gen_op(rng: &mut Rng) -> BOp {
 fn biased_prefix(rng: &mut Rng) -> Vec<BOp> {
     let bf = || BOp::BeginFunction { explicit_id: false, control: 0 };
     let bb = || BOp::BeginBlock { explicit_id: false };
-    match rng.below(4) {
+    // name(target = a function, "main"/"f"): argument seeds 4 and 28 are 1 mod 3 -> not a near-repeat; seed % 2 == 0 picks a
+    // function id, seed % 3 != 0 picks a pool name (see Drv::bias_arguments)
+    let name_fn = |rng: &mut Rng| BOp::Call { method: "name".into(), arg_seed: *rng.pick(&[2u64, 8, 14, 20, 26, 32, 38, 44]), explicit_rid: false, ip_kind: 0, ip_k: 0 };
+    match rng.below(7) {
+        // functions that share one (explicit) id, named, then selected by name while a block of the later one is open
+        4 | 5 | 6 => {
+            let mut v = vec![BOp::BeginFunction { explicit_id: rng.chance(1, 2), control: 0 }];
+            for _ in 0..rng.below(3) {
+                v.push(bb());
+                v.push(bb_term(rng));
+            }
+            v.push(BOp::EndFunction);
+            if rng.chance(1, 2) {
+                v.push(name_fn(rng));
+            }
+            v.push(BOp::BeginFunction { explicit_id: true, control: 0x30 | (rng.below(4) as u32) << 6 });
+            for _ in 0..rng.below(3) {
+                v.push(bb());
+                v.push(bb_term(rng));
+            }
+            v.push(bb());
+            if rng.chance(1, 2) {
+                v.push(name_fn(rng));
+            }
+            v.push(BOp::SelectFunctionByName(if rng.chance(1, 2) { "main".into() } else { "f".into() }));
+            v
+        }
         0 => vec![bf(), bb(), BOp::EndFunction],
         1 => vec![bf(), bb(), BOp::EndFunction, bf()],
         2 => vec![bf(), bb(), bb_term(rng), bb(), BOp::EndFunction, bf(), BOp::SelectFunction(Some(0))],
